@@ -30,6 +30,22 @@ checks = {
    text='the same scripted FIFO schedule is executed with epoch E, E+delta and E again; timer arguments and payload streams (timestamps minus epoch) must be identical.', note='nonces/hashes/signatures excluded (crypto/rand nonce); runs that used the map-ordered cache replay are skipped', ref='4.14, 5.4'),
  'C16': dict(engine='vnet', technique='runtime monitoring: offline timing checker over virtual-time-stamped proposals in fault-free synchronous runs with MaxTimePerBlock',
    text=VN+'proposal gaps >= min, empty proposals >= max after the previous one, notified primary proposes inside the OnNewTransaction call, no idle view change, subscription only with the extension.', note='tolerance 2 x one-way latency; a timeout while the proposal is in flight to that node is outside the premise', ref='4.16'),
+ 'C05': dict(engine='vnet', technique='runtime monitoring: online quiescence monitor between ProcessBlock and Reset plus state audits inside and after every Reset/Start (tables, validator list, own index, cache through the verif hook)',
+   text=VN+'multi-height runs with validator sets changing size/membership/own index, height skips by multi-block ledger sync, leftover and early traffic; at-most-once decision, whole-state fingerprint unchanged while decided, fresh state right after Context.reset, nothing of lower heights in tables or cache at return.', note='needs the verif hooks VerifCache/VerifFlags; authenticated transport', ref='4.5, 5.6'),
+ 'C06': dict(engine='c06', technique='runtime monitoring with an exhaustive workload: N/F/M/GetPrimaryIndex of the real Context evaluated for every N in 1..65535 x every view 0..255 x listed heights against integer arithmetic',
+   text='exhaustive enumeration of N x view at the listed heights (incl. 32-bit boundaries); per-N height windows for N<=512; 1% sample and N<=64 re-initialised through real Reset.', note='BlockIndex is moved directly between heights for most N', ref='4.6'),
+ 'C09': dict(engine='vnet', technique='runtime monitoring: bounded-progress checker in virtual time over runs with silent validators, healed partitions and amnesia restarts',
+   text=VN+'liveness restated as bounded progress: after the last fault event every live validator gains each height within 16*2^(v0+s)*TimePerBlock of virtual time; views <= s for silent-from-start runs; agreement checked on the same runs.', note='bounded restatement of an unbounded eventually; synchronous delivery after GST; known liveness lock (amnesiac primary) listed in KNOWN_FINDINGS.txt', ref='4.9, 5.12'),
+ 'C11': dict(engine='vnet', technique='runtime monitoring: whole-state fingerprint comparison around injected inadmissible/duplicate inputs in reachable states, plus an API-sequence fuzzer in child processes as panic trap',
+   text=VN+'probes of every inadmissible class are injected into states reached by real runs and judged by fingerprint/timer/broadcast comparison; 40k (quick) generated API sequences with arbitrary payloads and callback results run in child processes that record the case before executing it.', note='fingerprint covers unexported state through the verif hooks; one recorded finding (latent change-view quorum)', ref='4.11, 5.11'),
+ 'C12': dict(engine='vnet', technique='runtime monitoring: online obligation tracker RequestTx -> OnTransaction -> PrepareResponse/ChangeView',
+   text=VN+'obligations start at RequestTx and must be discharged no later than the OnTransaction call that supplies the last requested transaction, including view changes inside that call (directed scenario + seeded variations).', note='premise evaluated at call start (backup, proposal stored, not view-changing, not answered)', ref='4.12, 5.5'),
+ 'C13': dict(engine='vnet', technique='runtime monitoring: online silence monitor on watch-only nodes (Broadcast/Sign/SetData) plus twin-run comparison watch-only vs silent validator',
+   text=VN+'watch-only validator at every list position and observers outside the list, heights chosen so that it is primary at Start/Reset/after view changes; the other validators must behave identically next to a silent validator (FIFO twin runs).', note='twin comparison skips runs that used the map-ordered cache replay', ref='4.13, 5.2'),
+ 'C15': dict(engine='vnet', technique='runtime monitoring: online proposal well-formedness oracle at NewPrepareRequest/Broadcast/API return/NewBlockFromContext on real primaries',
+   text='generated previous timestamps, clock readings (behind/equal/ahead, unaligned, stepping), increments, pools 0..64, heights up to 2^32, views > 0.', note='gap prevTs < trunc(now) < prevTs+inc only checked for strict increase', ref='4.15'),
+ 'C17': dict(engine='c17', technique='runtime monitoring: offline log monitor (agreement, contiguity, chain links, progress, interval) over the real simulation binary, also built with the race detector',
+   text='the built internal/simulation program runs in private network namespaces for 23 s (quick) with several flag sets; approvals are parsed from its log.', note='real time: only one-sided loose bounds, load guard makes lateness findings inconclusive', ref='4.17, 5.3'),
  'C18': dict(engine='c18', technique='runtime monitoring: online shadow oracle (never-early lower bound, latest epoch, zero-duration, owed expiry) over generated Reset/Extend/wait/read sequences on the real timer.Timer against the monotonic clock',
    text='generated operation sequences on 128-256 real timers; one-sided hard bounds that are sound under load, lateness only beyond 2 s relative to a control timer and with a scheduler-stall heartbeat.', note='real time is observed; a stalled machine makes cases inconclusive, never violated; thorough tier may be run with VERIF_RACE=1', ref='4.18'),
  'C19': dict(engine='c19', technique='runtime monitoring: oracles (hash sensitivity, codec fixed point and round trip, recovery rebuild, signature and Merkle sensitivity) over generated payloads/blocks/bytes/keys executed on the real internal packages',
